@@ -240,6 +240,17 @@ fn run_inner(rng: &mut Rng, world: &World, k: u16, format: &str, dir: &str) -> C
     // (1) build_result_archive + independent reader + library loader on a rebuilt graph
     let zip_path = format!("{dir}/nested/dir/results.zip");
     let model_str = bn.to_string();
+    if rng.chance(1, 3) {
+        // the path already holds a LARGER archive from an earlier run (more sets, longer formula list): it has to be replaced
+        let mut stale = lib_sets.clone();
+        for i in 0..4 {
+            stale.insert(format!("stale_{i}"), sys.graph.mk_unit_colored_vertices());
+        }
+        let mut old_formulae = formulae.clone();
+        old_formulae.extend((0..6).map(|i| format!("EF (stale_formula_{i} & true)")));
+        let _ = libg::guarded(|| build_result_archive(stale, &zip_path, &model_str, old_formulae));
+        out.count("archives_overwritten");
+    }
     match libg::guarded(|| build_result_archive(lib_sets.clone(), &zip_path, &model_str, formulae.clone())) {
         Ok(Ok(())) => {}
         Ok(Err(e)) => {
